@@ -2814,13 +2814,17 @@ class WBEMConnection:  # pylint: disable=too-many-instance-attributes
                         arg_name, type(bool_param)))
         return bool_param
 
-    def _get_rslt_params(self, result, namespace, exp_type=None):
+    def _get_rslt_params(self, result, namespace, exp_type=None,
+                         with_path=False):
         """
         Common processing for pull results to separate end-of-sequence,
         enum-context, and entities in IRETURNVALUE.
 
         If exp_type is not None, the entities in IRETURNVALUE must be objects
         of that type.
+
+        If with_path is True, the entities in IRETURNVALUE must in addition
+        have an instance path (i.e. be VALUE.INSTANCEWITHPATH elements).
 
         Returns tuple of entities in IRETURNVALUE, end_of_sequence,
         and enumeration_context)
@@ -2858,6 +2862,12 @@ class WBEMConnection:  # pylint: disable=too-many-instance-attributes
                         _format("Expecting {0} object in result list, got "
                                 "{1} object", exp_type.__name__,
                                 obj.__class__.__name__),
+                        conn_id=self.conn_id)
+                if with_path and obj.path is None:
+                    raise CIMXMLParseError(
+                        _format("Expecting {0} object with path in result "
+                                "list, got object without path",
+                                exp_type.__name__),
                         conn_id=self.conn_id)
 
         if not end_of_sequence_found and not enumeration_context_found:
@@ -7226,7 +7236,7 @@ class WBEMConnection:  # pylint: disable=too-many-instance-attributes
 
             result_tuple = pull_inst_result_tuple(
                 *self._get_rslt_params(result, namespace,
-                                       CIMInstance))
+                                       CIMInstance, with_path=True))
             return result_tuple
 
         except (CIMXMLParseError, XMLParseError) as exce:
@@ -7742,7 +7752,7 @@ class WBEMConnection:  # pylint: disable=too-many-instance-attributes
 
             result_tuple = pull_inst_result_tuple(
                 *self._get_rslt_params(result, namespace,
-                                       CIMInstance))
+                                       CIMInstance, with_path=True))
             return result_tuple
 
         except (CIMXMLParseError, XMLParseError) as exce:
@@ -8260,7 +8270,7 @@ class WBEMConnection:  # pylint: disable=too-many-instance-attributes
 
             result_tuple = pull_inst_result_tuple(
                 *self._get_rslt_params(result, namespace,
-                                       CIMInstance))
+                                       CIMInstance, with_path=True))
             return result_tuple
 
         except (CIMXMLParseError, XMLParseError) as exce:
@@ -8875,7 +8885,7 @@ class WBEMConnection:  # pylint: disable=too-many-instance-attributes
 
             result_tuple = pull_inst_result_tuple(
                 *self._get_rslt_params(result, namespace,
-                                       CIMInstance))
+                                       CIMInstance, with_path=True))
             return result_tuple
 
         except (CIMXMLParseError, XMLParseError) as exce:
